@@ -43,8 +43,9 @@ M = [
   "            cms = CountMinLog16(*args, shared_memory=shared_memory)\n            np.copyto(cms.cms, npzfile[\"cms\"])", ["C10"]),
  ("murmur_tail2", "hashes.py", "    elif switch_len == 2:\n        k1 = _xor32(k1, _shift32l(tail[1], 8))", "    elif switch_len == 2:\n        k1 = _xor32(k1, _shift32l(tail[1], 16))", ["C11"]),
  ("fasthash_tail5", "hashes.py", "    elif switch_case == 5:\n        tail = key[nblocks * 8 :]\n        v = uint64(0)\n        v = _xor_shiftl(v, tail[4], 32)",
-  "    elif switch_case == 5:\n        tail = key[nblocks * 8 :]\n        v = uint64(0)\n        v = _xor_shiftl(v, tail[4], 24)", ["C11", "C14"]),
- ("hh_ngram_lt", "heavyhitters.py", "    key_len = np.uint64(len(key))\n    if key_len <= ngram:", "    key_len = np.uint64(len(key))\n    if key_len < ngram:", ["C12"]),
+  "    elif switch_case == 5:\n        tail = key[nblocks * 8 :]\n        v = uint64(0)\n        v = _xor_shiftl(v, tail[4], 24)", ["C11"]),
+ ("hh_ngram_window_count", "heavyhitters.py", "        for i in range(key_len - (ngram - uint64(1))):\n            _add(", "        for i in range(key_len - ngram):\n            _add(", ["C12"]),
+ ("log8_ngram_window_count", "countmin.py", "        for i in range(key_len - (ngram - uint64(1))):\n            rand_ptr = _add_log8(", "        for i in range(key_len - ngram):\n            rand_ptr = _add_log8(", ["C12"]),
  ("hll_merge_no_seed_check", "hyperloglog.py", "        if self.p != other.p or self.seed != other.seed:", "        if self.p != other.p:", ["C15"]),
  ("hh_attach_swapped", "heavyhitters.py",
   "        start = end\n        end += self.lhh_count.nbytes\n        self.lhh_count = np.frombuffer(\n            existing_shm.buf[start:end],\n            np.uint32,\n        ).reshape(self.depth, self.width)\n        start = end\n        end += self.key_lens.nbytes\n        self.key_lens = np.frombuffer(\n            existing_shm.buf[start:end],\n            np.uint8,\n        ).reshape(self.depth, self.width)",
